@@ -127,7 +127,7 @@ def runs_for(pid, tier, seed):
         ]
         return runs
     if pid == 'C10':
-        st = {'plain', 'wide', 'tabs'}
+        st = {'plain', 'wide', 'tabs', 'crlf'}
         ld = dict(CritLists=none, CheckText=True, Styles=st, InfoBlocks={False, True}, PCs={False}, Stabs={False}, ReportCap=0,
                   ExportMode='load')
         inv = ['FamilyWellFormed', 'ReadRender', 'Export']
@@ -139,6 +139,7 @@ def runs_for(pid, tier, seed):
             R('wide-hr/text', fm.wide(na=2, **ld), invariants=inv, simulate=3000 if q else 40000),
             R('11 projects/text', fm.twodigit_projects(TieMode='all', **ld), invariants=inv, simulate=1500 if q else 15000),
             R('10 students/text', fm.twodigit_students(OrderMode='asctied', **ld), invariants=inv, simulate=800 if q else 8000),
+            R('11 lecturers, quotas >= 10/text', fm.twodigit_lecturers(**ld), invariants=inv, simulate=600 if q else 6000),
             R('12 students, ties everywhere/text', fm.twodigit_students(NS=12, NP=3, MaxLen=3, TieMode='all', OrderMode='asctied', **ld),
               invariants=inv, simulate=500 if q else 5000),
         ]
